@@ -18,6 +18,9 @@ ACT = {
     "nonmain_busy": "import time\nchannel.send('started')\ntime.sleep(1000)",
     "lockholder": "import time\nc = channel.gateway.newchannel()\nchannel.send(c)\nwhile c._items.qsize() == 0:\n    time.sleep(0.01)\nc.setcallback(lambda x: time.sleep(1000))",
     "transfer": "data = b'x' * (1 << 20)\nwhile 1:\n    channel.send(data)",
+    "endmarker_raiser": "import time\ndef cb(x):\n    if x == 'END':\n        raise ValueError('callback fails on its endmarker')\nc = channel.gateway.newchannel()\nc.setcallback(cb, endmarker='END')\nchannel.send(c)\ntime.sleep(1000)",
+    "sender": "n = 0\nwhile True:\n    channel.send(n)\n    n += 1",
+    "sender_swallow": "n = 0\nwhile True:\n    try:\n        channel.send(n)\n        n += 1\n    except OSError:\n        break\n    except KeyboardInterrupt:\n        pass",
 }
 
 pids = []
@@ -39,6 +42,8 @@ for gw in gws:
             sub = ch.receive(10)
             sub.send(1)
             chans.append(sub)
+        if activity == "endmarker_raiser":
+            chans.append(ch.receive(10))
 time.sleep(0.4)
 with open(out + ".tmp", "w") as f:
     f.write(" ".join(map(str, pids)))
